@@ -53,6 +53,7 @@ type W struct {
 
 	globalAttempt int
 	restores      []func()
+	flagRestores  []func()
 
 	ifaces      map[int]io.Writer
 	handlers    map[int]logslog.Handler
